@@ -122,7 +122,9 @@ def check(ctx, src):
             inner = [n for n in d.walk() if n.kind == "expr" and n.head() == SELF_FORM.get(cls)]
             ctx.check(bool(inner) and "comp-op" in syms, "T-OP", f"{name}|{cls}", f"hy.pyops.{name} does not test with `{SELF_FORM.get(cls)}`", PY, d.line, detail="same macro form")
     un = comp.rm.func("compile_unary_operator")
-    ops = fold(pyq.contains(un, lambda n: isinstance(n, ast.Assign) and norm(n.targets[0]) == "ops").value)
+    opsd = pyq.contains(un, lambda n: isinstance(n, ast.Dict) and {getattr(k, "value", None) for k in n.keys} == {"not", "bnot"})
+    ctx.need(opsd is not None, "compile_unary_operator: operator table not found")
+    ops = fold(opsd)
     ctx.check({k: str(v) for k, v in ops.items()} == {"not": "ast.Not", "bnot": "ast.Invert"}, "T-OP", "not/bnot|classes", f"unary table is {ops}", R, un.lineno, detail="Not / Invert")
     for name in ("not", "bnot"):
         d = py.defn(name)
